@@ -23,7 +23,9 @@ def vtext(v):
 def r0(ctx):
     repo = ctx.repo
     osl = repo.cls("file_source", "one_space_line")
-    ev = Evaluator(Hooks())
+    from ..spec import class_hooks
+
+    ev = Evaluator(class_hooks(osl))
 
     def effs(p):
         return [(e[0], e[1], tuple(vtext(x) for x in e[2:])) for e in p.effects]
